@@ -712,30 +712,46 @@ func H_TB_recmap(t *verifrt.T) {
 
 // ---------------------------------------------------------------- recursive member inside a larger struct, inside an interface frame
 
+// the smallest recursive type: its own program is much shorter than the enclosing one
+type vtList struct {
+	V    int     `json:"v"`
+	Next *vtList `json:"next"`
+}
+
+func refList(b []byte, l *vtList) []byte {
+	if l == nil {
+		return append(b, "null"...)
+	}
+	b = append(b, `{"v":`...)
+	b = refInt(b, int64(l.V))
+	b = append(b, `,"next":`...)
+	b = refList(b, l.Next)
+	return append(b, '}')
+}
+
 type vtOuter struct {
-	Name string  `json:"name"`
-	List *vtRec  `json:"list"`
-	Grid [][]int `json:"grid"`
-	Tail int     `json:"tail"`
+	List  *vtList `json:"list"`
+	Grid  [][]int `json:"grid"`
+	Grid2 [][]int `json:"grid2"`
+	Name  string  `json:"name"`
+	Tail  int     `json:"tail"`
 }
 
 func H_TB_recouter(t *verifrt.T) {
 	o := vtOuter{Name: plainString(t, "name", 1), Tail: int(smallInt(t, "tail"))}
-	b := []byte(`{"name":`)
-	b = refStr(b, o.Name)
-	b = append(b, `,"list":`...)
+	b := []byte(`{"list":`)
 	depth := t.Choice("depth", 4)
 	if depth == 0 {
 		b = append(b, "null"...)
 	} else {
-		head := &vtRec{V: int(smallInt(t, "v")), Tail: "h"}
+		head := &vtList{V: int(smallInt(t, "v"))}
 		cur := head
 		for i := 1; i < depth; i++ {
-			cur.Next = &vtRec{V: i, Tail: "t"}
+			cur.Next = &vtList{V: i}
 			cur = cur.Next
 		}
 		o.List = head
-		b = refRec(b, head)
+		b = refList(b, head)
 	}
 	b = append(b, `,"grid":`...)
 	switch t.Choice("grid", 3) {
@@ -751,6 +767,15 @@ func H_TB_recouter(t *verifrt.T) {
 		b = refInt(b, int64(x))
 		b = append(b, `,2],null,[3]]`...)
 	}
+	b = append(b, `,"grid2":`...)
+	if t.Choice("grid2", 2) == 1 {
+		o.Grid2 = [][]int{{4}}
+		b = append(b, `[[4]]`...)
+	} else {
+		b = append(b, "null"...)
+	}
+	b = append(b, `,"name":`...)
+	b = refStr(b, o.Name)
 	b = append(b, `,"tail":`...)
 	b = refInt(b, int64(o.Tail))
 	b = append(b, '}')
@@ -758,7 +783,7 @@ func H_TB_recouter(t *verifrt.T) {
 	case 0:
 		checkMarshal(t, &o, b)
 	case 1:
-		checkMarshal(t, []interface{}{o}, append(append([]byte{'['}, b...), ']'))
+		checkMarshal(t, []interface{}{o, "z"}, append(append([]byte{'['}, b...), `,"z"]`...))
 	case 2:
 		checkMarshal(t, []interface{}{o, 7, &o}, append(append(append(append([]byte{'['}, b...), `,7,`...), b...), ']'))
 	}
